@@ -810,6 +810,15 @@ func init() {
 		return res
 	}
 	intrinsics["maps.Keys"] = intrinsics["golang.org/x/exp/maps.Keys"]
+	// bytes.Compare / bytes.Equal: functions of the contents of their arguments, modelled as
+	// uninterpreted functions of (byte heap, a, b) so that code and contracts agree
+	heapPure := func(name string, resSort func(c *Ctx) string) intrinsic {
+		return func(x *Exec, st *State, fn *ssa.Function, args []Val, pos token.Pos, resT *types.Tuple) Val {
+			return x.heapPureApp(st, name, args, resT.At(0).Type())
+		}
+	}
+	intrinsics["bytes.Compare"] = heapPure("bytes_Compare", nil)
+	intrinsics["bytes.Equal"] = heapPure("bytes_Equal", nil)
 	intrinsics["errors.New"] = pureNonNilErr
 	intrinsics["fmt.Errorf"] = pureNonNilErr
 	pureFresh := func(x *Exec, st *State, fn *ssa.Function, args []Val, pos token.Pos, resT *types.Tuple) Val {
@@ -821,7 +830,7 @@ func init() {
 		"strconv.Atoi", "strconv.ParseUint", "strings.Fields", "strings.Split", "strings.Join", "strings.TrimSpace", "strings.HasPrefix",
 		"strings.HasSuffix", "strings.TrimPrefix", "strings.TrimSuffix", "strings.Index", "strings.IndexByte", "strings.Contains",
 		"strings.ToLower", "strings.ToUpper", "strings.Repeat", "strings.SplitN", "strings.Trim", "strings.TrimLeft", "strings.TrimRight",
-		"strings.NewReader", "bytes.NewReader", "bytes.Equal", "bytes.Compare", "math.Round", "math.Abs", "math.Floor", "math.Ceil",
+		"strings.NewReader", "bytes.NewReader", "math.Round", "math.Abs", "math.Floor", "math.Ceil",
 		"math.IsNaN", "math.IsInf", "math.Inf", "math.NaN", "math.Trunc", "math.Mod", "math.Sqrt", "math.Max", "math.Min",
 		"time.Parse", "(time.Time).Format", "(time.Time).IsZero", "strings.EqualFold", "unicode/utf8.RuneCountInString",
 		"(*regexp.Regexp).FindStringSubmatch", "(*regexp.Regexp).MatchString", "strings.Cut", "strings.Replace", "strings.ReplaceAll",
@@ -833,4 +842,22 @@ func init() {
 		"(*bufio.Scanner).Buffer", "strconv.FormatInt", "strconv.FormatFloat", "strconv.Quote", "unicode.IsSpace", "unicode.IsDigit"} {
 		intrinsics[k] = pureFresh
 	}
+}
+
+// heapPureApp: result = uf(H_uint8, args...) for functions that only read their []byte arguments.
+func (x *Exec) heapPureApp(st *State, name string, args []Val, rt types.Type) Val {
+	c := x.c
+	r, rs := c.elemRegion(types.Typ[types.Uint8])
+	f := "hp_" + name
+	sorts := []string{rs}
+	terms := []string{c.region(st, r)}
+	for _, a := range args {
+		sorts = append(sorts, c.sortOf(a.T))
+		terms = append(terms, a.S)
+	}
+	c.declareFun(f, sorts, c.sortOf(rt))
+	c.note("trusted: " + strings.ReplaceAll(name, "_", ".") + " is a function of the bytes of its arguments only (uninterpreted)")
+	res := sx(f, terms...)
+	c.assume(c.wf(rt, res))
+	return Val{T: rt, S: res}
 }
